@@ -284,6 +284,57 @@ theorem C34_clear_on_commit_only_is_stale :
   ⟨[(witnessEnv, [(some 0, "view", .entity 2)], .rollback),
     ({ witnessEnv with groupsOf := fun _ => [] }, [(some 0, "view", .entity 2)], .commit)], by decide⟩
 
+/-! ### the getter registries -/
+
+private theorem foldl_getters (gs : List (Bool × Answer)) (acc : List String) (x : String) :
+    x ∈ gs.foldl (fun acc g => if g.1 then collect acc g.2 else acc) acc ↔
+      x ∈ acc ∨ ∃ g ∈ gs, g.1 = true ∧ (g.2 = .single x ∨ ∃ l, g.2 = .many l ∧ x ∈ l) := by
+  induction gs generalizing acc with
+  | nil => simp
+  | cons g r ih =>
+    simp only [List.foldl_cons, ih, List.mem_cons, exists_eq_or_imp]
+    obtain ⟨b, a⟩ := g
+    cases b
+    · simp
+    · cases a with
+      | single s =>
+        simp only [collect, List.mem_append, List.mem_singleton, if_true, true_and, Answer.single.injEq]
+        constructor
+        · rintro ((h | h) | h)
+          · exact Or.inl h
+          · exact Or.inr (Or.inl (Or.inl h.symm))
+          · exact Or.inr (Or.inr h)
+        · rintro (h | (h | ⟨l, h, _⟩) | h)
+          · exact Or.inl (Or.inl h)
+          · exact Or.inl (Or.inr h.symm)
+          · cases h
+          · exact Or.inr h
+      | nothing => simp [collect]
+      | many l =>
+        simp only [collect, List.mem_append, if_true, true_and]
+        constructor
+        · rintro ((h | h) | h)
+          · exact Or.inl h
+          · exact Or.inr (Or.inl (Or.inr ⟨l, rfl, h⟩))
+          · exact Or.inr (Or.inr h)
+        · rintro (h | (h | ⟨l', h, hx⟩) | h)
+          · exact Or.inl (Or.inl h)
+          · cases h
+          · cases h; exact Or.inl (Or.inr hx)
+          · exact Or.inr h
+
+/-- the user's groups are 'anybody' and exactly the union of what the APPLICABLE getters answer — a `str` answer counts
+    as one name, `None` as nothing — for every registry and every combination of answers -/
+theorem C34_getters_union (gs : List (Bool × Answer)) (x : String) :
+    x ∈ groupsFromGetters gs ↔
+      x = "anybody" ∨ ∃ g ∈ gs, g.1 = true ∧ (g.2 = .single x ∨ ∃ l, g.2 = .many l ∧ x ∈ l) := by
+  unfold groupsFromGetters foldGetters
+  rw [List.mem_cons, foldl_getters]
+  simp
+
+example : groupsFromGetters [(true, .single "a b"), (false, .many ["x"]), (true, .nothing), (true, .many ["g", "h"])] =
+    ["anybody", "a b", "g", "h"] := by decide
+
 /-! ### `can_view`, `can_edit`, `can_create`, `can_delete` -/
 
 theorem C34_can_view (env : Env) (user : User) (x : Target) :
